@@ -5,10 +5,10 @@
 // Symbolic: for every scalar leaf the literal's type (int/long) and ANY value of it.  Which leaves are
 // present (expr != NULL) is a compile-time-constant pattern inside each sub-problem -- a symbolic
 // NULL-or-node pointer makes cbmc explore every case of add_type()/eval2() on an "invalid object" --
-// and ALL patterns are covered by a constant loop inside the same cbmc query: every subset for the
-// 7-leaf bit-field struct, and for the larger shapes: none, all, each leaf alone, each leaf missing,
-// two alternating patterns and every subset of the first bit-field group.  For the union every
-// choice of initialised member (or none) is combined with every such pattern.
+// and the patterns are covered by a constant loop inside the same cbmc query (-DPATSET): 0 = every
+// subset of the 7-leaf bit-field struct; 1 = none, all, each leaf alone, each leaf missing, two
+// alternating patterns and every subset of the four bit-field leaves; 2 = the first six kinds only.
+// For the union every choice of initialised member (or none) is combined with every pattern.
 // Decided:  static image == reference image (absent => zero, present => value truncated into the
 //           member's bytes / bits at the psABI position), no relocation is produced;
 //           the automatic assignment chain, applied to a zeroed object with C assignment semantics,
@@ -28,6 +28,9 @@ static Type_fwd *stub_struct_union_decl(Token_fwd **rest, Token_fwd *tok);
 #undef struct_union_decl
 #include "penv.h"
 
+#ifndef PATSET
+#define PATSET 1
+#endif
 #ifndef SHAPE
 #define SHAPE 1   // 1: struct with bit-fields  2: nested struct  3: array of struct  4: union
 #endif
@@ -147,20 +150,29 @@ static void build(void) {
 }
 
 // ---- presence patterns (compile-time constants at every use)
-#if SHAPE == 1
-#define NPAT 128
-static unsigned pattern(int j) { return j; }
-#else
-#define NPAT (2 + 2 * MAXLEAF + 2 + 128)
-static unsigned pattern(int j) {
+// basic set: none, all, each leaf alone, each leaf missing, two alternating patterns
+#define NBASIC (2 + 2 * MAXLEAF + 2)
+static unsigned basic_pattern(int j) {
   if (j == 0) return 0;
   if (j == 1) return ~0u;
   if (j < 2 + MAXLEAF) return 1u << (j - 2);
   if (j < 2 + 2 * MAXLEAF) return ~(1u << (j - 2 - MAXLEAF));
-  if (j == 2 + 2 * MAXLEAF) return 0x5555u;
-  if (j == 3 + 2 * MAXLEAF) return 0xAAAAu;
-  return (unsigned)(j - (4 + 2 * MAXLEAF)) | ~0x7fu;   // every subset of leaves 0..6 (first S1), the rest present
+  return j == 2 + 2 * MAXLEAF ? 0x5555u : 0xAAAAu;
 }
+// leaves 0..6 are the first S1 group: a, b, c (bit-fields), d, e, f, g (bit-field)
+#if PATSET == 0        // every subset of the S1 group (other leaves present)
+#define NPAT 128
+static unsigned pattern(int j) { return (unsigned)j | ~0x7fu; }
+#elif PATSET == 1      // basic set + every subset of the four bit-fields a, b, c, g (other leaves present)
+#define NPAT (NBASIC + 16)
+static unsigned pattern(int j) {
+  if (j < NBASIC) return basic_pattern(j);
+  unsigned m = j - NBASIC;
+  return (m & 7) | (m & 8) << 3 | ~0x47u;
+}
+#else                  // basic set only
+#define NPAT NBASIC
+static unsigned pattern(int j) { return basic_pattern(j); }
 #endif
 static unsigned cur_present;          // bit k: leaf k is present in the current sub-problem
 // umem: union only: 0 = `{}` (no member recorded), k = member k-1 designated
